@@ -4,7 +4,7 @@ VIEW View
 CONSTANTS
   MaxFaults = 2
   Kinds = {"msg", "namew", "rdw", "optw", "namet", "rdt", "ttl", "zone", "msgt", "optm", "rdg", "zinc"}
-  PairBases = {"M1", "M2", "M3", "M4", "M5", "N1", "N2", "L1", "L2", "L3", "L4", "T1", "T2", "T3", "Z1", "Z2", "Z3", "Z4", "Z5", "A", "AAAA", "MX", "TXT", "OPT", "TSIG", "NSEC", "NSEC3", "SVCB", "HTTPS", "APL", "LOC", "SOA", "RRSIG", "NAPTR", "HIP", "IPSECKEY", "CAA", "URI", "CERT", "TKEY", "DS", "AMTRELAY", "CSYNC", "GPOS", "ISDN", "NSAP", "CH.A", "8.1", "8.2", "15.1", "15.2", "10.2", "18.1"}
+  PairBases = {"M1", "M2", "M3", "M4", "M5", "M6", "N1", "N2", "L1", "L2", "L3", "L4", "T1", "T2", "T3", "Z1", "Z2", "Z3", "Z4", "Z5", "A", "AAAA", "MX", "TXT", "OPT", "TSIG", "NSEC", "NSEC3", "SVCB", "HTTPS", "APL", "LOC", "SOA", "RRSIG", "NAPTR", "HIP", "IPSECKEY", "CAA", "URI", "CERT", "TKEY", "DS", "AMTRELAY", "CSYNC", "GPOS", "ISDN", "NSAP", "CH.A", "8.1", "8.2", "15.1", "15.2", "10.2", "18.1"}
 INVARIANT OctetsOK
 INVARIANT DescriptorDeterminesInput
 INVARIANT BaseAccepted
